@@ -12,6 +12,16 @@ applied to the base artefact's file named by `target`.  Bases are deterministic 
   qcow:<profile>      e2image -Q output of an mkbase image
   extj                a file system with an EXTERNAL journal (journal device image with two committed transactions)
   raw:<name>          arbitrary bytes (empty, zeros, random, random with the ext2 magic) presented as every kind of input
+  ring:<profile>:<csum>:<fill>:<ring>   an mkbase image whose internal journal is a degenerate ring of spec/C06Readers.tla Part R
+
+Reader-bound families (spec/C06Readers.tla, catalogue handed over as JSON; symbolic values evaluated here on the base):
+  uhdr   one or two undo header fields (block_size, fs_block_size, num_keys, key_offset) at / around the reader's bounds,
+         header checksum recomputed
+  ukey   one field of the first key (size, fsblk) at / around / between every bound the reader derives from the header,
+         under header variants that pull the bounds apart; header and key block checksums recomputed
+  qhdr1 / qhdr2   one / two qcow2 header fields at / around the converter's bounds (end of file, table limits, cluster_bits)
+  sum    summary counters (superblock and per-group free counts) that put the derived quantities of resize2fs -P on their
+         boundaries, every checksum recomputed
 
 Structured corruptions = (object class of the location map) x (field of the on-disk format) x (value class), optionally with
 the object's checksum recomputed (superblock, group descriptor, inode, directory block tail) so that the damage reaches
@@ -288,7 +298,7 @@ def classify_inodes(path, loc, isize):
     return out
 
 
-def build_bases(b, env, outdir, tier, seed, want=None):
+def build_bases(b, env, outdir, tier, seed, want=None, rings=None):
     """Build (or reuse) every base artefact.  want: optional set of base ids (replay).  Returns OrderedDict id -> Base."""
     import mkbase, c13_images as G, jbd2write as J, jbd2sample as S
     os.makedirs(outdir, exist_ok=True)
@@ -411,6 +421,54 @@ def build_bases(b, env, outdir, tier, seed, want=None):
              input=("jo -f %s\njw -b 333,334 /dev/zero\njc\njo -f %s\njw -b 400 -r 333 /dev/zero\njc\n" % (jdev, jdev)).encode())
         loc = {"sb": 1024, "jsb": 2048, "jblk": {str(i): (2 + i) * 1024 for i in range(1, 10)}}
         bases["extj"] = Base("extj", "extj", {"img": img, "jdev": jdev}, loc, NAMES_MKBASE, dict(profile="extj", bs=1024))
+    # ---- ring:<profile>:<csum>:<fill>:<ring>  (degenerate journal rings of spec/C06Readers.tla Part R)
+    ring_ids = [r for r in (rings or []) if wanted(r)]
+    if want is not None:
+        ring_ids += [w for w in want if w.startswith("ring:") and w not in ring_ids]
+    for bid in ring_ids:
+        try:
+            _, prof, csum, fill, ringtxt = bid.split(":")
+            syms = ringtxt.split(",")
+            csum = int(csum)
+        except ValueError:
+            raise GenError("malformed ring base id %s" % bid)
+        if prof not in fs:
+            raise GenError("ring base %s: unknown profile" % bid)
+        src = fs[prof].files["img"]
+        im = J.Image(src)
+        jmap = im.journal_map()
+        free = [x for x in im.free_blocks(0) if x not in set(jmap)]
+        tb = {1: free[10], 2: free[11], 3: free[40], 4: free[-5]}
+        L, seq0 = len(syms), 7
+        log = []
+        for p_, sy in enumerate(syms):
+            k, _, so = sy.partition(".")
+            sq = seq0 + int(so or 0)
+            if k in ("D1", "D2", "DW"):
+                nt = {"D1": 1, "D2": 2, "DW": L - 1}[k]
+                log.append({"t": "desc", "seq": sq, "ok": 1, "id": p_ + 1,
+                            "tags": [{"blk": 1 + (i % 4), "v": 1 + i, "cs": 1 + i, "esc": 0} for i in range(nt)]})
+            elif k == "R":
+                log.append({"t": "revoke", "seq": sq, "ok": 1, "blks": [1 + p_ % 4]})
+            elif k == "C":
+                log.append({"t": "commit", "seq": sq, "ok": 1, "time": 100 + p_, "hassum": 0, "sum": []})
+            elif k == "X":
+                log.append({"t": "junk"})
+            else:
+                raise GenError("ring base %s: unknown block kind %s" % (bid, sy))
+        firstd = next((r for r in log if r["t"] == "desc"), None)
+        if fill == "desc" and firstd is not None:       # blocks the scan never reads: copies of the ring's first descriptor
+            log = [dict(firstd) if r["t"] == "junk" else r for r in log]
+        j = {"cfg": {"csum": csum, "b64": 0, "async": 0, "L": L, "nb": 4}, "jsb": {"start": 1, "seq": seq0}, "log": log}
+        dst = os.path.join(outdir, "ring_%s.img" % hashlib.sha1(bid.encode()).hexdigest()[:12])
+        sparse_copy(src, dst)
+        try:
+            w = J.write_journal(dst, j, tb, first=1, needs_recovery=1)
+        except ValueError as e:
+            raise GenError("ring base %s: %s" % (bid, e))
+        loc = {"jsb": w["jsb_block"] * w["bs"]}
+        bases[bid] = Base(bid, "ring", {"img": dst}, loc, NAMES_MKBASE, dict(profile=prof, bs=w["bs"], isize=fs[prof].info["isize"],
+                                                                          stratum={"csum": csum, "fill": fill, "ring": ringtxt}))
     # ---- raw:<name>
     rr = random.Random(seed * 7919 + 5)
     RAW = OrderedDict()
@@ -694,6 +752,331 @@ def unstructured(base, seed, n):
             out.append(dict(id="%s|u:%s:%s:%d" % (base.id, t, kind, k), family="unstruct:" + kind, base=base.id, target=t, pokes=pokes,
                             trunc=trunc, what="unstructured %s #%d of the %s" % (kind, k, t)))
     return out
+
+
+# ------------------------------------------------------------------------------------------------ reader-bound families
+# (spec/C06Readers.tla; `cat` = the JSON catalogue TLC wrote)
+P2 = {"p28": 1 << 28, "p31": 1 << 31, "p32": 1 << 32, "p40": 1 << 40, "p62": 1 << 62, "p63": 1 << 63, "max32": (1 << 32) - 1, "max64": (1 << 64) - 1}
+E2UNDO_MIN_BS, E2UNDO_MAX_BS, E2UNDO_MAX_EXT, UNDO_KEY_INFO = 1024, 1048576, 512, 24
+# offsets and widths come from the field tables above (one source for both parts of the structured universe)
+UNDO_HDR_AT = {n: (o, w) for n, o, w in UNDO_HDR_FIELDS if n in ("num_keys", "key_offset", "block_size", "fs_block_size")}
+UNDO_KEY_AT = {n[3:]: (o - 16, w) for n, o, w in UNDO_KEY_FIELDS if n in ("k0_fsblk", "k0_size")}           # relative to the key
+QCOW_AT = {n: (o, w) for n, o, w in QCOW_HDR_FIELDS if n in ("cluster_bits", "size", "l1_size", "l1_table_offset", "refcount_table_offset",
+                                                              "refcount_table_clusters")}
+QCOW_ORDER = ["cluster_bits", "size", "l1_table_offset", "l1_size", "refcount_table_offset", "refcount_table_clusters"]
+
+
+def ev(e, env):
+    """value of a symbolic expression of the catalogue in env; None = the element does not exist on this base (a name
+    without a value here, a midpoint of two equal or adjacent bounds)"""
+    if e["of"] == "none":
+        return None
+    if e["hi"]:
+        lo, hi = env.get(e["of"]), env.get(e["hi"])
+        if lo is None or hi is None:
+            return None
+        lo, hi = min(lo, hi), max(lo, hi)
+        return (lo + hi) // 2 if hi - lo >= 2 else None
+    v = env.get(e["of"])
+    if v is None:
+        return None
+    return e["m"] * v // e["d"] + e["a"]
+
+
+def etxt(e):
+    if e["hi"]:
+        return "mid(%s,%s)" % (e["of"], e["hi"])
+    if e["of"] == "c":
+        return str(e["m"] // e["d"] + e["a"])
+    t = e["of"] if e["m"] == 1 else "%d*%s" % (e["m"], e["of"])
+    if e["d"] != 1:
+        t += "/%d" % e["d"]
+    return t + ("%+d" % e["a"] if e["a"] else "")
+
+
+def _fits(v, size):
+    return v is not None and 0 <= v < (1 << (8 * size))
+
+
+class _Mem:
+    """a file held in memory with pokes applied on top (for the checksums of multi-field elements)"""
+
+    def __init__(self, path):
+        self.data = bytearray(_file(path))
+        self.pokes = []
+
+    def poke(self, off, b):
+        if off < 0:
+            return
+        if off + len(b) > len(self.data):
+            self.data.extend(bytes(off + len(b) - len(self.data)))
+        self.data[off:off + len(b)] = b
+        self.pokes.append([off, bytes(b).hex()])
+
+
+_FILES = {}
+
+
+def _file(path):
+    if path not in _FILES:
+        with open(path, "rb") as f:
+            _FILES[path] = f.read()
+    return _FILES[path]
+
+
+def _undo_env0(base):
+    d = _file(base.files["undo"])
+    nk, so, ko = struct.unpack_from("<QQQ", d, 8)
+    bs, fsbs = struct.unpack_from("<II", d, 32)
+    env = dict(P2, c=1, bs0=bs, fsbs0=fsbs, nk0=nk, ko0=ko, so0=so, fb0=(len(d) + bs - 1) // bs, kpb0=bs // 16 - 1,
+               alloc=(1 << 64) // UNDO_KEY_INFO + 1, minbs=E2UNDO_MIN_BS, maxbs=E2UNDO_MAX_BS)
+    return d, env
+
+
+def _undo_apply_hdr(m, assign, env0):
+    """poke the header fields of `assign` (field -> expression); returns {field: value} or None when a value does not fit"""
+    vals = {}
+    for f in sorted(assign):
+        v = ev(assign[f], env0)
+        if v is None:
+            continue
+        off, size = UNDO_HDR_AT[f]
+        if not _fits(v, size):
+            return None
+        m.poke(off, v.to_bytes(size, "little"))
+        vals[f] = v
+    return vals
+
+
+def _undo_hdr_crc(m):
+    m.poke(508, struct.pack("<I", crc32c(MASK, bytes(m.data[:508]))))
+
+
+def undo_hdr_family(base, cat):
+    out = []
+    d, env0 = _undo_env0(base)
+    for a in cat["undo_hdr"]:
+        m = _Mem(base.files["undo"])
+        vals = _undo_apply_hdr(m, a, env0)
+        if not vals or all(struct.unpack_from("<Q" if UNDO_HDR_AT[f][1] == 8 else "<I", d, UNDO_HDR_AT[f][0])[0] == v for f, v in vals.items()):
+            continue
+        _undo_hdr_crc(m)
+        txt = "&".join("%s=%s" % (f, etxt(a[f])) for f in sorted(vals))
+        out.append(dict(id="%s|uh:%s" % (base.id, txt), family="uhdr", base=base.id, target="undo", pokes=m.pokes, trunc=-1, nfields=len(vals),
+                        what="undo header " + ", ".join("%s <- %s (= %d)" % (f, etxt(a[f]), vals[f]) for f in sorted(vals)) + "; header checksum recomputed"))
+    return out
+
+
+def undo_key_family(base, cat):
+    """one field of the first key at every value of the key catalogue, under every header variant"""
+    out = []
+    d, env0 = _undo_env0(base)
+    devsize = os.path.getsize(base.files["img"])
+    for e in cat["undo_key"]:
+        sc = cat["undo_scalings"][e["scaling"]]
+        m = _Mem(base.files["undo"])
+        hv = _undo_apply_hdr(m, sc, env0)
+        if hv is None:
+            continue
+        bs, fsbs, ko = hv.get("block_size", env0["bs0"]), hv.get("fs_block_size", env0["fsbs0"]), env0["ko0"]
+        if bs < E2UNDO_MIN_BS or bs > E2UNDO_MAX_BS or fsbs == 0:
+            continue
+        if bs != env0["bs0"]:
+            # keep the layout readable: the first key block stays where it is when the offset can be expressed in the new unit
+            if (ko * env0["bs0"]) % bs == 0:
+                ko = ko * env0["bs0"] // bs
+                m.poke(UNDO_HDR_AT["key_offset"][0], ko.to_bytes(8, "little"))
+            if (env0["so0"] * env0["bs0"]) % bs == 0:
+                m.poke(16, (env0["so0"] * env0["bs0"] // bs).to_bytes(8, "little"))
+        _undo_hdr_crc(m)
+        kb = ko * bs                                        # the first key block; its first key at +16
+        if kb + bs > len(m.data) or struct.unpack_from("<I", m.data, kb)[0] != 0xCADECADE:
+            continue
+        size0 = struct.unpack_from("<I", m.data, kb + 16 + 12)[0]
+        dev = devsize // fsbs
+        env = dict(P2, c=1, bs=bs, fsbs=fsbs, ext_bs=E2UNDO_MAX_EXT * bs, ext_fsbs=E2UNDO_MAX_EXT * fsbs, rest=max(0, len(m.data) - (kb + bs)),
+                   dev=dev, dev_ext=dev - (size0 + fsbs - 1) // fsbs, ovf=(1 << 63) // fsbs)
+        v = ev(e["val"], env)
+        off, size = UNDO_KEY_AT[e["field"]]
+        if not _fits(v, size) or int.from_bytes(m.data[kb + 16 + off:kb + 16 + off + size], "little") == v:
+            continue
+        m.poke(kb + 16 + off, v.to_bytes(size, "little"))
+        blk = bytearray(m.data[kb:kb + bs])
+        blk[4:8] = b"\0\0\0\0"
+        m.poke(kb + 4, struct.pack("<I", crc32c(MASK, bytes(blk))))
+        out.append(dict(id="%s|uk:%s:%s=%s" % (base.id, e["scaling"], e["field"], etxt(e["val"])), family="ukey", base=base.id, target="undo",
+                        pokes=m.pokes, trunc=-1,
+                        what="undo header variant %s (block_size %d, fs_block_size %d), key 0 %s <- %s (= %d); header and key block checksums recomputed"
+                             % (e["scaling"], bs, fsbs, e["field"], etxt(e["val"]), v)))
+    return out
+
+
+def qcow_hdr_family(base, cat):
+    out = []
+    path = base.files["qcow"]
+    d = _file(path)
+    cb0, = struct.unpack_from(">I", d, 20)
+    size0, = struct.unpack_from(">Q", d, 24)
+    n0, = struct.unpack_from(">I", d, 36)
+    l10, = struct.unpack_from(">Q", d, 40)
+    eof = len(d)
+    for a in cat["qcow_hdr"]:
+        env = dict(P2, c=1, cbmin=9, cbmax=31, cb0=cb0, size0=size0, l10=l10, n0=n0)
+        cur = {"cluster_bits": cb0, "size": size0, "l1_table_offset": l10, "l1_size": n0}
+        vals, ok = {}, True
+        for f in QCOW_ORDER:
+            cb = cur["cluster_bits"]
+            cl = 1 << (cb if 0 <= cb <= 40 else cb0)
+            env.update(cl=cl, eof_dn=eof // cl * cl, eof_up=(eof + cl - 1) // cl * cl, max64al=(1 << 64) - cl)
+            sh = 2 * cb - 3
+            env["maxl1"] = ((cur["size"] >> sh) if 0 <= sh < 64 else 0) + cl if 0 <= cb <= 31 else None
+            env["fit"] = max(0, eof - cur["l1_table_offset"]) // 8
+            v = ev(a[f], env)
+            if v is None:
+                if a[f]["of"] != "none":
+                    ok = False
+                continue
+            off, size = QCOW_AT[f]
+            if not _fits(v, size):
+                ok = False
+                break
+            vals[f] = v
+            if f in cur:
+                cur[f] = v
+        if not ok or not vals:
+            continue
+        pokes, same = [], True
+        for f, v in sorted(vals.items()):
+            off, size = QCOW_AT[f]
+            b = v.to_bytes(size, "big")
+            same = same and d[off:off + size] == b
+            pokes.append([off, b.hex()])
+        if same:
+            continue
+        txt = "&".join("%s=%s" % (f, etxt(a[f])) for f in sorted(vals))
+        out.append(dict(id="%s|qh:%s" % (base.id, txt), family="qhdr%d" % len(vals), base=base.id, target="qcow", pokes=pokes, trunc=-1,
+                        what="qcow2 header " + ", ".join("%s <- %s (= %d)" % (f, etxt(a[f]), vals[f]) for f in sorted(vals))))
+    return out
+
+
+def summary_family(base, cat):
+    """summary counters on the boundaries of the quantities resize2fs -P derives from them (C06Readers Part S)"""
+    path = base.files["img"]
+    R = ext4read.Reader(path)
+    try:
+        R.read_super()
+        R.read_gds()
+        fx = R.layout()
+    except Exception as e:                                   # the reader cannot parse a base image: generator failure
+        raise GenError("summary family: reader failed on %s: %s" % (base.id, e))
+
+    def ovh(g):                                              # fixed metadata of group g: superblock + descriptors, bitmaps, inode table
+        lo, hi = R.group_first(g), R.group_last(g)
+        n = 0
+        for c in ("sb", "gdt", "rsvgdt"):
+            for a, b_ in fx[c]:
+                a2, b2 = max(a, lo), min(b_, hi)
+                if a2 <= b2:
+                    n += b2 - a2 + 1
+        return n + 2 + R.itb
+    total = R.blocks - sum(ovh(g) for g in range(R.gdc))     # SUM of the group counts at which the data need is 0
+    wide = R.has64 and R.dsize >= 64
+    out = []
+    for e in cat["summary"]:
+        free_i = {"asis": None, "used0": R.inodes, "used1": R.inodes - 1, "usedall": 0, "over": R.inodes + 1}[e["ino"]]
+        need = e["need"]
+        counts = None
+        if need in ("neg", "zero", "one"):
+            want = total - {"neg": -1, "zero": 0, "one": 1}[need]
+            counts, rem = [], want
+            for g in range(R.gdc):
+                n = max(0, min(R.bpg, rem))
+                counts.append(n)
+                rem -= n
+            if rem != 0 or want < 0:
+                continue
+        elif need == "full":
+            counts = [0] * R.gdc
+        elif need == "bpg":
+            counts = [R.bpg] * R.gdc
+        elif need == "ones":
+            counts = [(1 << 32) - 1 if wide else 0xFFFF] * R.gdc
+        m_pokes = []
+        sb = bytearray(R.sbraw)
+        if free_i is not None:
+            struct.pack_into("<I", sb, 16, free_i & MASK)
+        if counts is not None and sum(counts) <= R.blocks:
+            struct.pack_into("<I", sb, 12, sum(counts) & MASK)
+        if bytes(sb) != bytes(R.sbraw):
+            if R.meta_csum:
+                struct.pack_into("<I", sb, 1020, crc32c(MASK, bytes(sb[:1020])))
+            m_pokes.append([1024, bytes(sb).hex()])
+        if counts is not None:
+            for g in range(R.gdc):
+                raw = bytearray(R.gdraw[g])
+                struct.pack_into("<H", raw, 12, counts[g] & 0xFFFF)
+                if wide:
+                    struct.pack_into("<H", raw, 0x2C, (counts[g] >> 16) & 0xFFFF)
+                if R.csum_kind != "none":
+                    struct.pack_into("<H", raw, 0x1E, R.gd_csum(g, bytes(raw)))
+                if bytes(raw) != bytes(R.gdraw[g]):
+                    m_pokes.append([R.loc["gd%d" % g], bytes(raw).hex()])
+        if not m_pokes:
+            continue
+        out.append(dict(id="%s|sum:ino=%s&need=%s" % (base.id, e["ino"], need), family="sum", base=base.id, target="img", pokes=m_pokes, trunc=-1,
+                        what="summary counters: used inodes %s, data need %s (s_free_inodes_count %s, group free counts %s); checksums recomputed"
+                             % (e["ino"], need, free_i if free_i is not None else "as is",
+                                ("%s..." % counts[:4]) if counts is not None else "as is")))
+    return out
+
+
+def ring_ids(cat, tier, seed):
+    """base ids of the degenerate rings of this tier: thorough = the whole catalogue on ext3_1k (no checksums) with both
+    fills and on ext4_1k with v3 checksums; quick = a seeded choice of 3 rings (one of them descriptors only)"""
+    rings = sorted(",".join(r) for r in cat["rings"])
+    fills = sorted(cat["ring_fill"])
+    if tier == "thorough":
+        return (["ring:ext3_1k:0:%s:%s" % (f, r) for r in rings for f in fills] + ["ring:ext4_1k:3:junk:%s" % r for r in rings])
+    rng = random.Random("%d/rings" % seed)
+    donly = [r for r in rings if set(x.split(".")[0] for x in r.split(",")) <= {"D1", "X"}]
+    pick = [rng.choice(donly)] + rng.sample([r for r in rings if r not in donly], 2)
+    out = []
+    for i, r in enumerate(pick):
+        if i == 1:
+            out.append("ring:ext4_1k:3:junk:%s" % r)
+        else:
+            out.append("ring:ext3_1k:0:%s:%s" % (fills[(seed + i) % len(fills)], r))
+    return out
+
+
+def reader_families(bases, cat, tier, seed):
+    """The reader-bound part of the universe.  thorough: every element on every undo / qcow2 base and every file system
+    profile.  quick: the key catalogue, the single-field qcow2 catalogue and the summary catalogue on ONE base each
+    (rotating with the seed), the pair catalogues on all bases (sampled by sample_quick)."""
+    U = []
+    names = set(f for a in cat["undo_hdr"] for f in a) | set(f for a in cat["undo_scalings"].values() for f in a)
+    if names != set(UNDO_HDR_AT) or set(e["field"] for e in cat["undo_key"]) != set(UNDO_KEY_AT) or \
+            set(f for a in cat["qcow_hdr"] for f in a) != set(QCOW_AT) or set(QCOW_ORDER) != set(QCOW_AT):
+        raise GenError("the field names of spec/C06Readers.tla and the concretiser's tables differ")
+    undo = [b for b in bases.values() if b.kind == "undo"]
+    qcow = [b for b in bases.values() if b.kind == "qcow"]
+    fs = [b for b in bases.values() if b.kind == "fs"]
+    for i, b in enumerate(undo):
+        U += undo_hdr_family(b, cat)
+        if tier == "thorough" or i == seed % len(undo):
+            U += undo_key_family(b, cat)
+    for i, b in enumerate(qcow):
+        q = qcow_hdr_family(b, cat)
+        U += [u for u in q if u["family"] == "qhdr2" or tier == "thorough" or i == seed % len(qcow)]
+    for i, b in enumerate(fs):
+        if tier == "thorough" or i == seed % len(fs):
+            U += summary_family(b, cat)
+    for b in bases.values():
+        if b.kind == "ring":
+            U.append(dict(id="%s|asis" % b.id, family="ring", base=b.id, target="img", pokes=[], trunc=-1,
+                          what="degenerate journal ring %s (fill %s, checksums v%d), needs_recovery set"
+                               % (b.info["stratum"]["ring"], b.info["stratum"]["fill"], b.info["stratum"]["csum"])))
+    return U
 
 
 def asis(base):
